@@ -56,6 +56,8 @@ type SvcSpec struct{ Id, Type, Endpoint string }
 type DocSpec struct {
 	Id         string    `json:"id"`
 	NoContext  bool      `json:"no_context,omitempty"`
+	EmptyContexts   bool `json:"empty_contexts,omitempty"`   // contexts present with zero entries
+	EmptyController bool `json:"empty_controller,omitempty"` // controller present with zero entries
 	Contexts   []string  `json:"contexts,omitempty"` // nil => [W3C]
 	Controller []string  `json:"controller,omitempty"`
 	VMs        []VMSpec  `json:"vms,omitempty"`
@@ -165,8 +167,16 @@ func (e *Env) BuildDoc(d *DocSpec) *didtypes.DIDDocument {
 		j := didtypes.JSONStringOrStrings(cs)
 		doc.Contexts = &j
 	}
+	if d.EmptyContexts {
+		j := didtypes.JSONStringOrStrings{}
+		doc.Contexts = &j
+	}
 	if d.Controller != nil {
 		j := didtypes.JSONStringOrStrings(d.Controller)
+		doc.Controller = &j
+	}
+	if d.EmptyController {
+		j := didtypes.JSONStringOrStrings{} // the property is present and lists nothing
 		doc.Controller = &j
 	}
 	for i := range d.VMs {
